@@ -371,6 +371,41 @@ def _count(ctx: Check, r: dict):
         if s.get(k):
             ctx.count(f"with_{k}")
     ctx.count(f"groups_{min(s.get('groups', 0), 8)}")
+    for k in sorted(_spec_features(r["spec"])):
+        ctx.count(f"with_{k}")
+
+
+def _spec_features(spec: dict) -> set:
+    """which variants of the uses a case contains (for the distribution in the evidence)"""
+    out: set = set()
+
+    def walk(block, depth, in_method):
+        for s in block:
+            if s["k"] == "cond":
+                out.add("condition_in_method" if in_method else "condition_in_transaction")
+                out.add("priority" if s["prio"] else "no_priority")
+                out.add("nonblocking" if s["nb"] else "blocking")
+                conds = [b["c"] for b in s["branches"]]
+                out.add("default_branch" if conds and conds[-1] is None else "no_default_branch")
+                if len(set(c for c in conds if c is not None)) < len([c for c in conds if c is not None]):
+                    out.add("branches_sharing_a_condition")
+                if depth > 0:
+                    out.add("nested_condition")
+                callees = [x["m"] for b in s["branches"] for x in b["block"] if x["k"] == "call"]
+                if len(set(callees)) < len(callees):
+                    out.add("callee_shared_by_branches")
+                for b in s["branches"]:
+                    walk(b["block"], depth + 1, in_method)
+            elif s["k"] == "call" and s.get("en") is not None:
+                out.add("conditional_call")
+
+    for it in spec["items"]:
+        walk(it["block"], 0, it["k"] == "method")
+    for c in spec.get("connects", []):
+        out.add("connect_with_reverse_data" if c["rw"] else "connect")
+    if spec.get("simul"):
+        out.add("plain_simultaneous")
+    return out
 
 
 def replay_simul(ctx: Check, pid: str, body: dict, monitor: Callable) -> Optional[str]:
